@@ -550,6 +550,20 @@ impl Prop for C19 {
     }
 
     fn check(c: &Case, obs: &mut Obs) {
+        // seeded delays at the schedule points of the counting threads (hook H5): three quarters of
+        // the cases perturb the arrival order of lines / per-line results
+        let h = hash64(&serde_json::to_string(c).unwrap_or_default());
+        let s = crate::sched::sched();
+        s.ensure_installed();
+        s.set_chaos_all(h, (h % 4) as u8);
+        obs.tag_if(h % 4 != 0, "delay-injection-in-counting-threads");
+        check_with_delays(c, obs);
+        s.set_chaos_all(0, 0);
+    }
+}
+
+fn check_with_delays(c: &Case, obs: &mut Obs) {
+    {
         static COUNTER: AtomicU64 = AtomicU64::new(0);
         let dir: PathBuf = std::env::temp_dir()
             .join(format!("tuverif-{}", std::process::id()))
